@@ -270,6 +270,8 @@ func TestC10(t *testing.T) {
 			label = "contended:replace||remove-or-dissociate"
 		} else if has("replace") && has("realloc") {
 			label = "contended:replace||realloc"
+		} else if has("replace") && has("node-repair") {
+			label = "contended:replace||node-repair"
 		}
 		return judge(hc, label, "no-fault", seq0)
 	}
